@@ -169,7 +169,7 @@ func coqStrEsc(s string) (string, error) {
 	return `"` + strings.ReplaceAll(s, `"`, `""`) + `"`, nil
 }
 
-func coqNat(i int) string { return fmt.Sprintf("%d%%nat", i) }
+func coqNat(i int) string { return fmt.Sprintf("%d", i) } // nat is the default scope of the case files
 
 type tcPoolTx struct {
 	tx      *ethtypes.Transaction
@@ -226,6 +226,10 @@ func tcRunUnwrap(id string, in tcUnwrapInput) (c Case, err error) {
 			p.msg = m
 		}
 		pool[i] = p
+		// the Coq term writes this text as hash_hex of the hash bytes: "0x" + lower-case hex
+		if tx.Hash().Hex() != "0x"+hex.EncodeToString(tx.Hash().Bytes()) {
+			return c, fmt.Errorf("%s: Hash.Hex() is not 0x + lower-case hex", id)
+		}
 		obs.Hashes = append(obs.Hashes, tx.Hash().Hex())
 	}
 
@@ -242,6 +246,9 @@ func tcRunUnwrap(id string, in tcUnwrapInput) (c Case, err error) {
 		if q.Kind == "flip" {
 			return fmt.Sprintf("(flip r%d %s)", q.Tx, coqNat(q.Bit))
 		}
+		if h == (common.Hash{}) {
+			return "zero_hash"
+		}
 		for i, p := range pool {
 			if h == p.tx.Hash() {
 				return fmt.Sprintf("r%d", i)
@@ -253,7 +260,13 @@ func tcRunUnwrap(id string, in tcUnwrapInput) (c Case, err error) {
 	tags := map[string]bool{}
 	var oracle []string
 	encoded := map[string][]byte{}
-	coqLookups := []string{}
+	// lookups on the same envelope (members, forgeries, From texts left behind) are printed together
+	type evGroup struct {
+		head string
+		reqs []string
+	}
+	groups := map[string]*evGroup{}
+	groupOrder := []string{}
 	nFound, nRefused := 0, 0
 
 	for k, lk := range in.Lookups {
@@ -361,7 +374,7 @@ func tcRunUnwrap(id string, in tcUnwrapInput) (c Case, err error) {
 		case got == nil:
 			lo.Err = "nil message without an error"
 		}
-		coqAfter := []string{}
+		coqAfter, coqFromAfter := []string{}, []string{}
 		for j, dm := range stx.GetMsgs() {
 			em, ok := dm.(*evmtypes.MsgEthereumTx)
 			if !ok {
@@ -376,7 +389,8 @@ func tcRunUnwrap(id string, in tcUnwrapInput) (c Case, err error) {
 			if err1 != nil || err2 != nil {
 				return c, fmt.Errorf("%s: lookup %d: unprintable Hash / From after the call", id, k)
 			}
-			coqAfter = append(coqAfter, fmt.Sprintf("(%s, %s)", a, b))
+			coqAfter = append(coqAfter, a)
+			coqFromAfter = append(coqFromAfter, b)
 		}
 
 		// ---- the property
@@ -444,8 +458,18 @@ func tcRunUnwrap(id string, in tcUnwrapInput) (c Case, err error) {
 		if lo.Found >= 0 {
 			found = "(Some " + coqNat(lo.Found) + ")"
 		}
-		coqLookups = append(coqLookups, fmt.Sprintf("mk_lk %s %s %s %s %s %s", coqList(env), coqList(coqFH), coqList(coqFF),
-			coqHashBytes(H, lk.Req), found, coqList(coqAfter)))
+		head := fmt.Sprintf("%s %s %s %s", coqList(env), coqList(coqFH), coqList(coqFF), coqList(coqFromAfter))
+		g, ok := groups[head]
+		if !ok {
+			g = &evGroup{head: head}
+			groups[head] = g
+			groupOrder = append(groupOrder, head)
+		}
+		g.reqs = append(g.reqs, fmt.Sprintf("mk_rq %s %s %s", coqHashBytes(H, lk.Req), found, coqList(coqAfter)))
+	}
+	coqEnvs := []string{}
+	for _, h := range groupOrder {
+		coqEnvs = append(coqEnvs, "mk_ev "+h+"\n      "+coqList(groups[h].reqs))
 	}
 	if nFound > 0 {
 		tags["unwrap:answer:found"] = true
@@ -475,9 +499,9 @@ func tcRunUnwrap(id string, in tcUnwrapInput) (c Case, err error) {
 		ctxs = append(ctxs, coqEthTx(p.tx))
 		chs = append(chs, fmt.Sprintf("r%d", i))
 	}
-	coq := fmt.Sprintf("mk_uc %s\n    %s\n    %s", coqList(ctxs), coqList(chs), "["+strings.Join(coqLookups, ";\n     ")+"]")
+	coq := fmt.Sprintf("mk_uc %s\n    %s\n    %s", coqList(ctxs), coqList(chs), "["+strings.Join(coqEnvs, ";\n     ")+"]")
 	for i := len(pool) - 1; i >= 0; i-- {
-		coq = fmt.Sprintf("let r%d := %s in let h%d := %s in\n  ", i, coqHx(pool[i].tx.Hash().Bytes()), i, coqStr(obs.Hashes[i])) + coq
+		coq = fmt.Sprintf("let r%d := %s in let h%d := hash_hex r%d in\n  ", i, coqHx(pool[i].tx.Hash().Bytes()), i, i) + coq
 	}
 	if coqSharedData != nil {
 		coq = "let d := " + coqHx(coqSharedData) + " in\n  " + coq
@@ -515,7 +539,7 @@ func tcSmallWrappable(in tcInput) bool {
 		return false
 	}
 	pre, err := tx.MarshalBinary()
-	if err != nil || len(pre) > 400 {
+	if err != nil || len(pre) > 250 {
 		return false
 	}
 	m := &evmtypes.MsgEthereumTx{}
@@ -622,8 +646,30 @@ func tcGenLookups(r *Rng) []tcLookup {
 				}
 			}
 		}
+		// a forged envelope is asked for the own hash, the true hash of every forged member, every
+		// hash a forgery names, and one absent hash
 		for _, f := range configs {
-			add(f, reqs())
+			qs := []tcReq{{Kind: "tx", Tx: 0}}
+			seen := map[int]bool{0: true}
+			for _, g := range f {
+				for _, ti := range []int{env[g.Pos], g.Tx} {
+					if (ti == g.Tx && g.Kind != "tx") || seen[ti] {
+						continue
+					}
+					seen[ti] = true
+					qs = append(qs, tcReq{Kind: "tx", Tx: ti})
+				}
+			}
+			if !seen[foreign] && (size == 1 || r.Chance(50)) {
+				qs = append(qs, tcReq{Kind: "tx", Tx: foreign})
+			}
+			switch r.Intn(2) {
+			case 0:
+				qs = append(qs, tcReq{Kind: "zero"})
+			default:
+				qs = append(qs, tcReq{Kind: "flip", Tx: env[r.Intn(len(env))], Bit: r.Intn(256)})
+			}
+			add(f, qs)
 		}
 	}
 	return out
